@@ -3,6 +3,7 @@ package webtransport
 import (
 	"encoding/binary"
 	"io"
+	"math"
 
 	"github.com/karagenc/socket.io-go/engine.io/parser"
 )
@@ -85,7 +86,12 @@ func nextPacket(r io.Reader) (*parser.Packet, error) {
 			if err != nil {
 				return nil, err
 			}
-			expectedLen = int(binary.BigEndian.Uint32(header[:]))
+			l := binary.BigEndian.Uint64(header[:])
+			if l > math.MaxInt32 {
+				// No peer sends 2 GiB in one frame; don't let the header overflow int.
+				return nil, ErrLimitReached
+			}
+			expectedLen = int(l)
 			state = ReadPayload
 		case ReadPayload:
 			return parser.DecodeWithLen(r, isBinary, expectedLen)
